@@ -87,8 +87,12 @@ def altitude_from_pressure_map_v0(map: npt.ArrayLike):
     longitudes = np.linspace(-180, 180, map.shape[1])
 
     def f(lat: float, long: float, *args, **kwargs) -> np.single:
-        i = np.searchsorted(latitudes, lat)
-        j = np.searchsorted(longitudes, lat)
+        # Event locations arrive in radians; the map grid is in degrees with
+        # longitudes in [-180, 180].
+        lat_deg = np.degrees(lat)
+        long_deg = (np.degrees(long) + 180.0) % 360.0 - 180.0
+        i = np.searchsorted(latitudes, lat_deg)
+        j = np.searchsorted(longitudes, long_deg)
         pressure: np.single = map[i, j]
         return atm.us_std_atm_altitude_from_pressure(pressure)
 
